@@ -26,6 +26,9 @@ corpus = {
     "C09": ["# F1: non-leading abstraction", parse("d", "1λ2"), parse("c", "a λb.b"), parse("d", "λ2(λ421(5(λ4127)λ8))67"),
             "# F2: unbalanced parentheses", parse("d", "(1"), parse("d", "1)2"), parse("c", "λa.a) b"), parse("c", "(λx. x)) y"),
             "# F9: a backslash ends an identifier", parse("c", "x\\y.y"), parse("c", "\\x.\\x.y\\y."), parse("c", "x \\y.y"),
+            "# F11: the glyph λ ends an identifier too", parse("c", "xλy.y"), parse("c", "λx.xλ"), parse("c", "λf.fλx.x f"), parse("c", "xλ"),
+            "# F12: empty binder name", parse("c", "λ.x"), parse("c", "\\.x"), parse("c", "λx.λ.x"), parse("c", "x λ.x"),
+            "# known finding: λ inside a binder name is a letter", parse("c", "λxλy.x"), parse("c", "\\λ.x"), parse("c", "λλλ"), parse("c", "\\\\\\"),
             "# seed v10: the word Display prints for UD is an ordinary identifier", parse("c", "undefined"), parse("c", "λx.undefined x"),
             "# seed t09: whitespace other than U+0020 ends a name", parse("c", "x\ty"), parse("c", "λx.x　x")],
     "C12": ["# F3: signed numbers use the zero of their own encoding", "signed scott 1", "signed scott -2", "signed parigot 3",
